@@ -128,7 +128,7 @@ class World:
         self.padset = cfg.get('pad', 'x')
         self.dir = tempfile.mkdtemp(prefix='rolllog-', dir='/dev/shm' if os.path.isdir('/dev/shm') else None)
         self.logdir = os.path.join(self.dir, 'logs')
-        self.clock = Clock()
+        self.clock = Clock(cfg.get('t0', 1_760_000_000.0))
         install_clock(self.clock)
         self.written = []           # payload size per record index
         self.file_of = {}           # record index -> file name
